@@ -1022,17 +1022,15 @@ class Part(object):
             The end time of the object
 
         """
+        # validate both times before touching the timeline, so that an
+        # invalid `end` does not leave the object registered by its start
+        if (start is not None and start < 0) or (end is not None and end < 0):
+            raise InvalidTimePointException(
+                "TimePoints should have non-negative integer values"
+            )
         if start is not None:
-            if start < 0:
-                raise InvalidTimePointException(
-                    "TimePoints should have non-negative integer values"
-                )
             self.get_or_add_point(start).add_starting_object(o)
         if end is not None:
-            if end < 0:
-                raise InvalidTimePointException(
-                    "TimePoints should have non-negative integer values"
-                )
             self.get_or_add_point(end).add_ending_object(o)
 
     def remove(self, o, which="both"):
